@@ -154,6 +154,48 @@ static int request(void)
     return 0;
 }
 
+/* ---------------- packed placement ----------------
+ * Optionally the hook allocator hands out blocks that lie DIRECTLY behind one another (8-byte granules, no allocator
+ * headers, no redzones): consecutive requests are neighbours, a string created after another one starts a few dozen
+ * bytes above it.  Code that compares or subtracts addresses of different blocks (overlap tests) behaves differently
+ * then than under an allocator that keeps blocks far apart.  Unallocated and released bytes stay poisoned for ASan. */
+#include <sys/mman.h>
+#if defined(__SANITIZE_ADDRESS__)
+#include <sanitizer/asan_interface.h>
+#define PACK_POISON(p, n) ASAN_POISON_MEMORY_REGION((p), (n))
+#define PACK_UNPOISON(p, n) ASAN_UNPOISON_MEMORY_REGION((p), (n))
+#else
+#define PACK_POISON(p, n) ((void)(p), (void)(n))
+#define PACK_UNPOISON(p, n) ((void)(p), (void)(n))
+#endif
+#define PACK_CAP ((size_t)512 << 20)
+static unsigned char *pack_arena = NULL;
+static size_t pack_off = 0;
+static int packed = 0;
+
+void ledger_set_packed(int on)
+{
+    if (on && pack_arena == NULL)
+    {
+        pack_arena = (unsigned char *)mmap(NULL, PACK_CAP, PROT_READ | PROT_WRITE, MAP_PRIVATE | MAP_ANONYMOUS | MAP_NORESERVE, -1, 0);
+        if (pack_arena == (unsigned char *)MAP_FAILED)
+        {
+            harness_die("ledger: cannot map the packed arena");
+        }
+        PACK_POISON(pack_arena, PACK_CAP);
+    }
+    if (st.live == 0 && pack_arena != NULL)
+    {
+        pack_off = 0;   /* nothing is live: start from the bottom again (everything below is poisoned already) */
+    }
+    packed = on;
+}
+
+static int in_pack_arena(const void *p)
+{
+    return pack_arena != NULL && (const unsigned char *)p >= pack_arena && (const unsigned char *)p < pack_arena + PACK_CAP;
+}
+
 /* ---------------- hook side ---------------- */
 void *ledger_malloc(size_t n)
 {
@@ -162,6 +204,23 @@ void *ledger_malloc(size_t n)
     if (request())
     {
         return NULL;
+    }
+    if (packed)
+    {
+        size_t need = (n + 7u) & ~(size_t)7u;
+        if (need == 0)
+        {
+            need = 8;
+        }
+        if (pack_off + need > PACK_CAP)
+        {
+            harness_die("ledger: packed arena exhausted");
+        }
+        p = pack_arena + pack_off;
+        pack_off += need;
+        PACK_UNPOISON(p, n);
+        record(p, n, SIDE_HOOK);
+        return p;
     }
     p = __real_malloc(n);
     if (p != NULL)
@@ -189,6 +248,13 @@ void ledger_free(void *p)
     if (e->side != SIDE_HOOK)
     {
         st.cross_free++;
+    }
+    if (in_pack_arena(p))
+    {
+        size_t n = (e->size + 7u) & ~(size_t)7u;
+        unrecord(e);
+        PACK_POISON(p, n ? n : 8);
+        return;
     }
     unrecord(e);
     __real_free(p);
